@@ -12,7 +12,8 @@ THEOREMS = [("Sylvia.Thm.C05", "C05." + t) for t in
             ["terminates", "panic_sound", "complete", "spec", "rejects_iff", "spec_bytes"]] + \
            [("Sylvia.Lemmas.Inter4", "Inter.nextIndex_ongoing"), ("Sylvia.Lemmas.Lex", "Lex.strictTotal"),
             ("Sylvia.Thm.C05Gen", "C05.nameList_sorted"), ("Sylvia.Thm.C05Gen", "C05.nameList_are_wire_names"),
-            ("Sylvia.Thm.C05Gen", "C05.nameList_length"), ("Sylvia.Thm.Obl.Published", "Obl.published_rule_is_wire_rule")]
+            ("Sylvia.Thm.C05Gen", "C05.nameList_length"), ("Sylvia.Thm.Obl.Published", "Obl.published_rule_is_wire_rule")] + \
+           [("Sylvia.Thm.Obl.Wrapper", "Obl.wrapper_forms"), ("Sylvia.Thm.Obl.Tables", "Obl.extraction_complete")]
 
 
 def hexs(b):
